@@ -95,6 +95,7 @@ pub fn run(cfg: &RunCfg) -> Ctx {
         "enc.yield_flush",
         "dec.body_pending",
         "dec.mixed_flags_under_compression",
+        "enc.chained_put",
     ] {
         all.floor(k, 5);
     }
@@ -120,11 +121,15 @@ pub fn roundtrip_case(rng: &mut Rng, ctx: &mut Ctx, all_cuts: bool) {
     };
     let src_class = rng.below(4);
     let piecewise = rng.bool();
+    let chained = rng.chance(1, 3);
     let case = json!({"enc": enc.name(), "role": format!("{:?}", role), "codec": if prost {"prost"} else {"raw"},
-        "buffer_size": bs, "yield_threshold": yt, "sizes": sizes, "source_class": src_class, "piecewise": piecewise});
+        "buffer_size": bs, "yield_threshold": yt, "sizes": sizes, "source_class": src_class, "piecewise": piecewise, "chained": chained});
     let bs_class = match bs { 0 => "bs0", 1..=6 => "bs-tiny", 7..=1000 => "bs-small", _ => "bs-default" };
     ctx.begin(&format!("{}-{}", if enc == Enc::Identity { "identity" } else { "compressed" }, bs_class), case.clone());
     ctx.count(&format!("cfg.{}.{:?}", enc.name(), role));
+    if chained && !prost {
+        ctx.count("enc.chained_put");
+    }
 
     // payloads as the wire should carry them (before compression)
     let (payloads, raw_items, pb_items): (Vec<Vec<u8>>, Vec<Vec<u8>>, Vec<Msg>) = if prost {
@@ -143,7 +148,7 @@ pub fn roundtrip_case(rng: &mut Rng, ctx: &mut Ctx, all_cuts: bool) {
             encode_run(ProstCodec::<Msg, Msg>::raw_encoder(BufferSettings::new(bs, yt)), steps, enc, role, None, 3)
         } else {
             let steps = source_steps(rng, &raw_items, class);
-            encode_run(RawEncoder { bs: (bs, yt), piecewise }, steps, enc, role, None, 3)
+            encode_run(RawEncoder { bs: (bs, yt), piecewise, chained }, steps, enc, role, None, 3)
         }
     };
     let e0 = run_enc(rng, src_class, yt);
